@@ -28,7 +28,15 @@ use thiserror::Error;
 use tracing::debug;
 
 static OPERATION_REGEX: Lazy<Regex> =
-    Lazy::new(|| Regex::new(r"\s*(entrypoint|field|pointer)\s*([^\.\s]+)\.([^\s\(]+)").unwrap());
+    // This must agree with the header of an iso literal as the compiler parses it: the keyword
+    // starts the literal, names are identifiers, and white space (as the compiler's lexer defines
+    // it) may surround the period.
+    Lazy::new(|| {
+        Regex::new(
+            r"^[ \t\r\n\f\x{feff}]*(entrypoint|field|pointer)[ \t\r\n\f\x{feff}]+([a-zA-Z_][a-zA-Z0-9_]*)[ \t\r\n\f\x{feff}]*\.[ \t\r\n\f\x{feff}]*([a-zA-Z_][a-zA-Z0-9_]*)",
+        )
+        .unwrap()
+    });
 
 #[derive(Deserialize)]
 #[serde(deny_unknown_fields)]
@@ -291,7 +299,7 @@ impl IsoLiteralCompilerVisitor<'_> {
             };
 
             return OPERATION_REGEX
-                .captures_iter(first.raw.trim())
+                .captures_iter(&first.raw)
                 .next()
                 .map(|capture_group| {
                     debug!("capture_group {:?}", capture_group);
